@@ -21,5 +21,6 @@ func forall(lo, hi int, f func(int) bool) bool {
 //@   property C15
 //@   nosafety
 //@   requires j.snapshotStore != nil && j.assembly != nil && j.config != nil
-//@   atcall Deploy: j.snapshotStore.state.pendingSnapshot == nil
+//@   order Deploy after AbortPendingCheckpoint
 //@   order Deploy after CurrentCheckpoint
+//@   order CurrentCheckpoint after AbortPendingCheckpoint
